@@ -290,6 +290,13 @@ class Interp:
             return True
         if isinstance(cond, str):
             return len(cond) > 0
+        from .text import LineVal, Text, TokList, line_truth
+        if isinstance(cond, LineVal):
+            return self.decide(line_truth(self, cond))
+        if isinstance(cond, TokList):
+            return self.decide(sv.cmp(">", cond.n, 0))
+        if isinstance(cond, Text):
+            return True
         if isinstance(cond, (tuple, list)):
             return len(cond) > 0
         if isinstance(cond, Cx):
@@ -823,6 +830,13 @@ class Interp:
 
     def setitem(self, obj, key, value):
         if isinstance(obj, A.Arr):
+            from .text import Tok, TokList, tok_to_scalar, toklist_to_array
+            if isinstance(value, TokList):
+                value = toklist_to_array(value, obj.dtype if obj.dtype in ("int", "float") else "float")
+            elif isinstance(value, (Tok, str)):
+                value = tok_to_scalar(value, obj.dtype)
+            elif isinstance(value, Ref) and value.kind == "list":
+                value = self.arr_operand(value)
             return A.setitem(obj, key, value)
         if isinstance(obj, Ref):
             if obj.kind == "list":
@@ -989,7 +1003,8 @@ class Interp:
             a2 = self.arr_operand(a)
             b2 = self.arr_operand(b)
             return A.binop(op, a2, b2)
-        if isinstance(a, str) or isinstance(b, str):
+        from .text import Text as _Text
+        if isinstance(a, (str, _Text)) or isinstance(b, (str, _Text)):
             return self.lib.str_binop(self, op, a, b)
         if isinstance(a, Ref) or isinstance(b, Ref):
             if op == "+" and isinstance(a, Ref) and isinstance(b, Ref) and a.kind == b.kind == "list":
@@ -1268,6 +1283,9 @@ class Interp:
             return c.length, c.fn
         if isinstance(v, A.Arr) and v.shape and not A.dim_conc(v.shape[0]):
             return v.shape[0], (lambda i: A.getitem(v, i))
+        from .text import TokList
+        if isinstance(v, TokList) and not v.concrete():
+            return v.n, v.fn
         return None
 
     def ev_Call(self, node, frame):
